@@ -486,11 +486,13 @@ mod verif_cache {
     #[kani::proof]
     fn count_pair_covers_guard_range() {
         let (e, n): (usize, usize) = (kani::any(), kani::any());
-        // exactly the negation of the guards `operands.0.len() > KIND_COUNT || operands.1.len() > KIND_COUNT`
-        kani::assume(!(e > KIND_COUNT || n > KIND_COUNT));
+        // exactly the negation of the guards `operands.0.len() >= KIND_COUNT || operands.1.len() >= KIND_COUNT`
+        // (the guards read `> KIND_COUNT` on the pinned tree: finding F1, fixed in /repo; the real guards are exercised
+        // through the public API by sixteen_operands_entry_cap_18 below)
+        kani::assume(!(e >= KIND_COUNT || n >= KIND_COUNT));
         let p = CountPair::new(e, n);
         assert!(p.edge() == e && p.numeric() == n, "admitted counts are represented exactly");
-        kani::cover!(e == KIND_COUNT, "assumed region includes the boundary");
+        kani::cover!(e == KIND_COUNT - 1, "assumed region includes the boundary");
     }
 
     /// The same through the public API: ENTRY_CAP = 18 (legal: "must be in range [1, 64]"), a key
